@@ -147,6 +147,9 @@ class Operand(ABC):
         if self.value.is_numeric() and (self.value.is_direct() or old_value.is_explicit_direct()):
             return DirectOperand(self.operand_string, self.instruction, DirectNumericValue(self.value.int))
 
+        if self.value.is_address() and old_value.is_explicit_direct():
+            return DirectOperand(self.operand_string, self.instruction, value=self.value)
+
         return ExtendedOperand(self.operand_string, self.instruction, value=self.value)
 
     @abstractmethod
